@@ -516,7 +516,10 @@ func (ex *Explorer) runPath(c *Ctx, fn *ssa.Function) {
 		}
 	}()
 	for _, ri := range ex.RunInit {
-		i := strings.LastIndex(ri, ".")
+		i := strings.LastIndex(ri, ".init")
+		if i < 0 {
+			c.unsupported("runinit: bad spec %s", ri)
+		}
 		pkg := ex.Prog.ImportedPackage(ri[:i])
 		if pkg == nil {
 			c.unsupported("runinit: package %s not found", ri[:i])
